@@ -189,7 +189,7 @@ ValidDoc(ns) ==
         LET ch == Children(ns, o) IN Len(ch) = 1 /\ ns[ch[1]].k = "F" /\ ns[ch[1]].dirs = <<>>
 
 \* operation variable definitions = exactly the variables the operation uses
-VarOrder == <<"v", "w", "n", "m", "x", "y">>
+VarOrder == <<"v", "w", "n", "m", "x", "y", "i">>
 VDefsFor(ns, op) ==
   LET used == VarsUsedBy(ns, op)
       sq == SelectSeq(VarOrder, LAMBDA x : x \in used) IN
